@@ -97,6 +97,8 @@ class scatter(DaskStream):
 
     All elements flowing through the input will be scattered out to the cluster
     """
+    _previous = None
+
     @gen.coroutine
     def update(self, x, who=None, metadata=None):
         client = default_client()
@@ -107,9 +109,18 @@ class scatter(DaskStream):
         # lists and dicts. So we always use a list here to be sure
         # we know the format exactly. We do not use a key to avoid
         # issues like https://github.com/python-streamz/streams/issues/397.
-        future_as_list = yield client.scatter([x], asynchronous=True, hash=False)
-        future = future_as_list[0]
-        f = yield self._emit(future, metadata=metadata)
+        # elements leave in arrival order even when an earlier scatter takes longer
+        previous, turn = self._previous, gen.Future()
+        self._previous = turn
+        try:
+            future_as_list = yield client.scatter([x], asynchronous=True, hash=False)
+            future = future_as_list[0]
+            if previous is not None:
+                yield previous
+            emitted = self._emit(future, metadata=metadata)
+        finally:
+            turn.set_result(None)
+        f = yield emitted
         self._release_refs(metadata)
 
         raise gen.Return(f)
